@@ -1,4 +1,5 @@
 import MdsVerif.Model.Heapq
+import MdsVerif.Gen.Cache
 /-!
 # Model of `cache.Cache` with the LRU store (cache/cache.go, cache/lru.go)
 
@@ -9,6 +10,12 @@ model replays the heap's `move` log into `present` after every heap call).
 `Cache` adds the size/count accounting and the eviction-callback log.
 Panics of the Go code (`Store` on a present key, `Evict` on an empty store,
 the consistency check in `Clear`) are explicit results.
+
+The refusal test of `Put`, every size/count update, the loop conditions of `Put` and `Clear`, `Clear`'s
+consistency test, the clock ticks and time stamps of `Access`/`Store` and the comparison of `comparePrio`
+are definitions of `MdsVerif.Gen.Cache`, which `extract/cachecore.go` regenerates from cache.go and lru.go
+on every run (DESIGN.md §3.1): this file only fixes the control flow between them.  `Props.C08.C08_current`
+pins every one of these facts (and the statement-skeleton facts that are not expressions).
 -/
 namespace MdsVerif.Model.Cache
 open MdsVerif.Model.Heapq
@@ -19,7 +26,8 @@ structure Entry where
   value : Nat
 deriving Repr, DecidableEq, Inhabited
 
-def ltEntry (a b : Entry) : Bool := a.lastAccess < b.lastAccess
+/-- `comparePrio(a, b) < 0` -/
+def ltEntry (a b : Entry) : Bool := Gen.Cache.prioLess a.lastAccess b.lastAccess
 
 abbrev Index := List (Nat × Nat)   -- key ↦ offset
 
@@ -57,10 +65,10 @@ def Lru.access (cfg : Cfg) (s : Lru) (key : Nat) : Lru × Option Nat :=
   match s.present.get key with
   | none => (s, none)
   | some pos =>
-    let clock := s.clock + 1
+    let clock := Gen.Cache.accessClock s.clock   -- `c.clock++`
     let (h1, out) := heapRemove cfg s.h pos
     let s1 := ({ s with h := h1, clock := clock } : Lru).sync
-    let out := { out with lastAccess := clock }
+    let out := { out with lastAccess := Gen.Cache.accessStamp clock }   -- `out.lastAccess = c.clock`
     let (h2, _) := add cfg ltEntry s1.h out
     (({ s1 with h := h2 } : Lru).sync, some out.value)
 
@@ -68,8 +76,8 @@ def Lru.store (cfg : Cfg) (s : Lru) (key val : Nat) : Res Lru :=
   match s.present.get key with
   | some _ => .panic "lru store: unexpected key"
   | none =>
-    let clock := s.clock + 1
-    let (h, pos) := add cfg ltEntry s.h { lastAccess := clock, key := key, value := val }
+    let clock := Gen.Cache.storeClock s.clock   -- `c.clock++`
+    let (h, pos) := add cfg ltEntry s.h { lastAccess := Gen.Cache.storeStamp clock, key := key, value := val }
     let s1 := ({ s with h := h, clock := clock } : Lru).sync
     .ok { s1 with present := s1.present.set key pos }
 
@@ -101,29 +109,31 @@ deriving Repr
 def evictLoop (cfg : Cfg) (sizeOf : Nat → Int) : Nat → Cache → Int → Res (Cache × Int)
   | 0, c, newSize => .ok (c, newSize)   -- unreachable with enough fuel
   | fuel + 1, c, newSize =>
-    if newSize > c.limit then
+    if Gen.Cache.putEvicts newSize c.limit then
       match c.store.evict cfg with
       | .panic m => .panic m
       | .ok (st, ek, ev) =>
         evictLoop cfg sizeOf fuel
-          { c with store := st, evicted := (ek, ev) :: c.evicted, count := c.count - 1 } (newSize - sizeOf ev)
+          { c with store := st, evicted := (ek, ev) :: c.evicted, count := Gen.Cache.evictCount c.count }
+          (Gen.Cache.evictNewSize newSize (sizeOf ev))
     else .ok (c, newSize)
 
 def put (cfg : Cfg) (sizeOf : Nat → Int) (c : Cache) (key val : Nat) : Res (Cache × Bool) :=
   let valSize := sizeOf val
-  if valSize > c.limit then .ok (c, false)
+  if Gen.Cache.putRefuses valSize c.limit then .ok (c, false)
   else
     let c1 := match c.store.check key with
       | some old =>
         { c with store := c.store.remove cfg key, evicted := (key, old) :: c.evicted,
-                 size := c.size - sizeOf old, count := c.count - 1 }
+                 size := Gen.Cache.replaceSize c.size (sizeOf old), count := Gen.Cache.replaceCount c.count }
       | none => c
-    match evictLoop cfg sizeOf (c1.store.h.len + 1) c1 (c1.size + valSize) with
+    match evictLoop cfg sizeOf (c1.store.h.len + 1) c1 (Gen.Cache.putNewSize c1.size valSize) with
     | .panic m => .panic m
     | .ok (c2, newSize) =>
       match c2.store.store cfg key val with
       | .panic m => .panic m
-      | .ok st => .ok ({ c2 with store := st, size := newSize, count := c2.count + 1 }, true)
+      | .ok st => .ok ({ c2 with store := st, size := Gen.Cache.putSize c2.size newSize,
+                                 count := Gen.Cache.putCount c2.count }, true)
 
 def get (cfg : Cfg) (c : Cache) (key : Nat) : Cache × Option Nat :=
   let (st, r) := c.store.access cfg key
@@ -135,24 +145,25 @@ def remove (cfg : Cfg) (sizeOf : Nat → Int) (c : Cache) (key : Nat) : Cache ×
   match c.store.check key with
   | some old =>
     ({ c with store := c.store.remove cfg key, evicted := (key, old) :: c.evicted,
-              size := c.size - sizeOf old, count := c.count - 1 }, true)
+              size := Gen.Cache.removeSize c.size (sizeOf old), count := Gen.Cache.removeCount c.count }, true)
   | none => (c, false)
 
 def clearLoop (cfg : Cfg) (sizeOf : Nat → Int) : Nat → Cache → Res Cache
   | 0, c => .ok c
   | fuel + 1, c =>
-    if c.count > 0 then
+    if Gen.Cache.clearContinues c.count then
       match c.store.evict cfg with
       | .panic m => .panic m
       | .ok (st, ek, ev) =>
         clearLoop cfg sizeOf fuel
-          { c with store := st, evicted := (ek, ev) :: c.evicted, size := c.size - sizeOf ev, count := c.count - 1 }
+          { c with store := st, evicted := (ek, ev) :: c.evicted,
+                   size := Gen.Cache.clearSize c.size (sizeOf ev), count := Gen.Cache.clearCount c.count }
     else .ok c
 
 def clear (cfg : Cfg) (sizeOf : Nat → Int) (c : Cache) : Res Cache :=
   match clearLoop cfg sizeOf (c.count.toNat + 1) c with
   | .panic m => .panic m
-  | .ok c' => if c'.size != 0 || c'.count != 0 then .panic "cache: after clear" else .ok c'
+  | .ok c' => if Gen.Cache.clearInconsistent c'.size c'.count then .panic "cache: after clear" else .ok c'
 
 /-! ## histories -/
 
